@@ -31,6 +31,17 @@ fn observed(o: &Out) -> Result<&str, ()> {
     }
 }
 
+/// Same observation up to the error message: both Ok with the same text, or both errors of the
+/// same kind, or both panics.
+fn same(a: &Out, b: &Out) -> bool {
+    match (a, b) {
+        (Out::Ok(x), Out::Ok(y)) => x == y,
+        (Out::Err(k1, _), Out::Err(k2, _)) => k1 == k2,
+        (Out::Panic(_), Out::Panic(_)) => true,
+        _ => false,
+    }
+}
+
 fn is_syntax_error(o: &Out) -> bool {
     matches!(o, Out::Err(k, _) if k == "SyntaxError")
 }
@@ -79,6 +90,9 @@ fn compile(srcs: &[(String, String)]) -> Compiled {
 
 impl Compiled {
     fn run(&self, name: &str, ctx: &tera::Context) -> Out {
+        if self.failed.is_empty() && self.separate.is_empty() {
+            return engine::render(&self.tera, name, ctx);
+        }
         if let Some(o) = self.failed.get(name) {
             return o.clone();
         }
@@ -197,8 +211,8 @@ fn p_item(slots: &[Slot], thorough: bool, acc: &mut Acc, disc_out: &mut Discrimi
                     continue;
                 }
                 let o = compiled.run(&names[i][k], &ctx);
-                if o.coarse() != full.coarse() {
-                    let what = if k == 5 || (k != 1 && compiled.run(&names[i][1], &ctx).coarse() == full.coarse()) { "whitespace" } else { "grouping" };
+                if !same(&o, &full) {
+                    let what = if k == 5 || (k != 1 && same(&compiled.run(&names[i][1], &ctx), &full)) { "whitespace" } else { "grouping" };
                     acc.violation(
                         format!("{what}:{combo}"),
                         format!(
@@ -232,15 +246,18 @@ fn p_item(slots: &[Slot], thorough: bool, acc: &mut Acc, disc_out: &mut Discrimi
                 }
                 acc.count(&format!("P-reference-{}", want.class()), 1);
             }
-            // literal leaves instead of variables (when every leaf value has a literal)
-            if let Some(lits) = bindings.iter().map(|(n, v)| Expr::lit_of(v).map(|e| (n.clone(), e))).collect::<Option<Vec<_>>>() {
+            // literal leaves instead of variables (when every leaf value has a literal; for
+            // operator triples only over the first three pool values)
+            let lit_bound = slots.len() <= 2 || bindings.iter().all(|(_, v)| pool[..3].contains(v));
+            if !lit_bound {
+            } else if let Some(lits) = bindings.iter().map(|(n, v)| Expr::lit_of(v).map(|e| (n.clone(), e))).collect::<Option<Vec<_>>>() {
                 let lt = t.subst(&|n| lits.iter().find(|(k, _)| k == n).map(|(_, e)| e.clone()));
                 let p = Prog::Print(lt);
                 let empty = tera::Context::new();
                 for (par, ws, which) in [(Parens::Minimal, Ws::One, "literal/minimal"), (Parens::Full, Ws::Tight, "literal/full/tight")] {
                     let src = p.source(par, ws);
                     let o = engine::render_str(&compiled.tera, &src, &empty, false);
-                    if o.coarse() != full.coarse() {
+                    if !same(&o, &full) {
                         acc.violation(
                             format!("literal-leaves:{combo}"),
                             format!("`{src}` renders {} but `{}` with the same values bound renders {}", o.show(), src_of(&names[i][4]), full.show()),
@@ -256,7 +273,7 @@ fn p_item(slots: &[Slot], thorough: bool, acc: &mut Acc, disc_out: &mut Discrimi
         for i in 0..trees.len() {
             let mut differs = false;
             for &j in &alts[i] {
-                if fulls[i].coarse() != fulls[j].coarse() {
+                if !same(&fulls[i], &fulls[j]) {
                     differs = true;
                     if i < j {
                         discriminated.insert((i, j), true);
@@ -318,7 +335,7 @@ fn judge(tera: &tera::Tera, sp: &Spellings, family: &str, which: &str, case: &Ca
     let cj = |src: &str| json!({"id": case.id, "template": src, "bindings": case.describe_bindings()});
     for (name, s2) in &sp.srcs {
         let o2 = sp.compiled.run(name, &ctx);
-        if o2.coarse() != out.coarse() {
+        if !same(&o2, &out) {
             acc.violation(
                 format!("spelling:{family}:{name}:{which}"),
                 format!("`{s2}` renders {} but `{src}` renders {}", o2.show(), out.show()),
